@@ -31,6 +31,9 @@ def fault(flavour, message):
     return ScriptedSolutionError(message) if flavour == 1 else ScriptedError(message)
 
 
+_SHIFT = [0]   # abstract value mapped to 0.0 (variant 'shift': values of both signs; set per run by run_one)
+
+
 def real(v, scale):
     if v == NAN:
         return float('nan')
@@ -38,7 +41,7 @@ def real(v, scale):
         return float('inf')
     if v == NINF:
         return float('-inf')
-    return float(v) * scale
+    return float(v - _SHIFT[0]) * scale
 
 
 def warn_value(v, flavour):
@@ -73,6 +76,8 @@ def model_class(nv, tracer=False, lags=0, leads=0):
 
         def solve_t_before(self, t, **kwargs):
             d = self.__dict__
+            if d.get('_v_warm'):
+                return
             d['_v_nB'] += 1
             d['_v_kw_before'] = kwargs.get('iteration')
             if d['_v_wb']:
@@ -83,6 +88,8 @@ def model_class(nv, tracer=False, lags=0, leads=0):
 
         def solve_t_after(self, t, **kwargs):
             d = self.__dict__
+            if d.get('_v_warm'):
+                return
             d['_v_nA'] += 1
             if d['_v_wa']:
                 for name, v in zip(endo, d['_v_wa']):
@@ -92,6 +99,8 @@ def model_class(nv, tracer=False, lags=0, leads=0):
 
         def _evaluate(self, t, **kwargs):
             d = self.__dict__
+            if d.get('_v_warm'):
+                return        # the warm-up solve of an object with a history: a pass that changes nothing
             d['_v_nP'] += 1
             k = d['_v_nP']
             d['_v_iters'].append(kwargs.get('iteration'))
@@ -151,6 +160,28 @@ def build(rec, variant, tracer=False):
     span = span_for(L, variant['span'])
     m = M(span)
     tpos = cfg['t'] + L if cfg['t'] < 0 else cfg['t']
+    if variant.get('history'):
+        # an object with a past: every feasible period was solved once (passes that change nothing) and every variable
+        # was then re-assigned as a sequence, which re-binds its array; the behaviour of the specification applies to
+        # it as to a fresh object
+        d = m.__dict__
+        d['_v_warm'] = True
+        d['_v_script'], d['_v_scale'], d['_v_flavour'] = [], scale, 0
+        d['_v_before'] = d['_v_after'] = 'ok'
+        d['_v_wb'] = d['_v_wa'] = []
+        d['_v_nB'] = d['_v_nA'] = d['_v_nP'] = 0
+        d['_v_iters'] = []
+        try:
+            with warnings.catch_warnings():
+                warnings.simplefilter('ignore')
+                m.solve(max_iter=2, tol=1.0, failures='ignore', errors='ignore')
+                if 0 <= tpos < L:
+                    m.solve_t(tpos, max_iter=1, tol=1.0, failures='ignore', errors='ignore')
+        except Exception:
+            pass
+        for name in list(m.names):
+            setattr(m, name, [float(x) for x in m.__dict__['_' + name]])
+        d['_v_warm'] = False
     for i in range(nv):
         arr = m.__dict__[f'_X{i + 1}']
         arr[:] = [7.0 + 10 * i + p for p in range(L)]
@@ -203,6 +234,7 @@ def classify_exc(e):
 def run_one(rec, variant):
     cfg = rec['cfg']
     fin = rec['fin']
+    _SHIFT[0] = variant.get('shift', 0)
     m, tpos, span = build(rec, variant)
     L = cfg['L']
     nv = len(cfg['c0'])
@@ -304,6 +336,8 @@ def main():
             if nontrivial(rec):
                 out['nontrivial'] += 1
         for variant in vs:
+            if variant.get('shift') and rec['cfg']['errors'] == 'replace':
+                continue   # 'replace' zeroes the remembered copy: 0.0 is not the image of the abstract 0 under a shifted map
             out['n'] += 1
             diffs, obs, exp_cells = run_one(rec, variant)
             if diffs:
